@@ -805,9 +805,11 @@ func runC12(c *Ctx) {
 	}
 	if c.Quick() {
 		racingCallers(c, 400, 9)
+		concurrentCloses(c, 250)
 	} else {
 		racingCallers(c, 4000, 9)
+		concurrentCloses(c, 2500)
 	}
 	reentrantCloses(c, "C12")
-	c.Rep.Rule = "trees as in C11 on a real controller in virtual time under perturbation; shutdown triggers {Close, 3 concurrent Close, context cancel, list error} fired at every step index of a running workload (shutdown-point enumeration), plus Close swept over time while a list is slow, the watch connect hangs until cancelled or always fails, and after the server dropped the watch stream (after the reconnect, and inside the retry delay), while a list outlasts the refresh period (tick pending), and Close / context cancel while the controller is applying a list (initial and relist; slow filter) (mid-relist / mid-reconnect). Oracles: Close() returns and Done() closes at once in virtual time (synctest's deadlock detection is the oracle for 'does not hang'); after the root is done the inventory of goroutines with library frames is back to its value before the scenario; every API call {Subscribe*, Clone*, Refilter, Cache().List/Get, Close} on every stopped node returns a result or ErrNotRunning instead of blocking. Plus a monitor closed from inside each of its own callbacks (re-entrant Close). Plus one publisher / subscription goroutine descheduled at its k-th log call (k = 1..9, no log text looked at) while a subscriber closes, an event is published and the source stops. Plus the lifetime-protocol correspondence: 40 (400) seeded Subscribe/Close/Send/Stop sequences on a source publisher, settled after every call, compared with the extracted PubTerm.urun (call results, Done() of every subscription and of the publisher, goroutine inventory back at the baseline wherever the model says publisher done and nothing live). Plus 400 (4000) rounds of nine goroutines calling Subscribe/Clone/Cache().List at full speed while the source is stopped under them (every call returns, everything handed out is shut down). Plus a real-time stress: 1500 (8000) subscriptions opened and closed at full speed while a hand-driven source publishes without pause (no panic, publisher done, no goroutine left). In the Close sweep seven goroutines call Cache().List()/Get() and Subscribe()/Clone()/NewMonitor() in a loop across the shutdown: none stays blocked, and every subscription / clone they obtained ends up shut down. Non-trivial = every scenario."
+	c.Rep.Rule = "trees as in C11 on a real controller in virtual time under perturbation; shutdown triggers {Close, 3 concurrent Close, context cancel, list error} fired at every step index of a running workload (shutdown-point enumeration), plus Close swept over time while a list is slow, the watch connect hangs until cancelled or always fails, and after the server dropped the watch stream (after the reconnect, and inside the retry delay), while a list outlasts the refresh period (tick pending), and Close / context cancel while the controller is applying a list (initial and relist; slow filter) (mid-relist / mid-reconnect). Oracles: Close() returns and Done() closes at once in virtual time (synctest's deadlock detection is the oracle for 'does not hang'); after the root is done the inventory of goroutines with library frames is back to its value before the scenario; every API call {Subscribe*, Clone*, Refilter, Cache().List/Get, Close} on every stopped node returns a result or ErrNotRunning instead of blocking. Plus a monitor closed from inside each of its own callbacks (re-entrant Close). Plus one publisher / subscription goroutine descheduled at its k-th log call (k = 1..9, no log text looked at) while a subscriber closes, an event is published and the source stops. Plus the lifetime-protocol correspondence: 40 (400) seeded Subscribe/Close/Send/Stop sequences on a source publisher, settled after every call, compared with the extracted PubTerm.urun (call results, Done() of every subscription and of the publisher, goroutine inventory back at the baseline wherever the model says publisher done and nothing live). Plus 400 (4000) rounds of nine goroutines calling Subscribe/Clone/Cache().List at full speed while the source is stopped under them (every call returns, everything handed out is shut down). Plus 250 (2500) rounds of Close() called by eight goroutines at the same instant on a monitor, a subscription, a filtered subscription and a clone. Plus a real-time stress: 1500 (8000) subscriptions opened and closed at full speed while a hand-driven source publishes without pause (no panic, publisher done, no goroutine left). In the Close sweep seven goroutines call Cache().List()/Get() and Subscribe()/Clone()/NewMonitor() in a loop across the shutdown: none stays blocked, and every subscription / clone they obtained ends up shut down. Non-trivial = every scenario."
 }
